@@ -164,3 +164,80 @@ def ckksScaleOk (scale : Float) (totalBits : Nat) : Bool :=
   !(scale ≤ 0.0) && scale < Float.ofScientific 1 false 0 * (Float.ofNat 2) ^ (Float.ofNat totalBits)
 
 end HC
+
+namespace HC
+
+/-- component-wise map with a per-component modulus list -/
+def compsZip (ms : Array Modulus) (a b : RnsPoly) (f : Nat → Nat → Modulus → R Nat) : R RnsPoly :=
+  (List.range ms.size).foldlM (fun acc i => do
+    let c ← zipM' (a.getD i #[]) (b.getD i #[]) (fun x y => f x y (ms.getD i default))
+    pure (acc.push c)) #[]
+
+def compsMap (ms : Array Modulus) (a : RnsPoly) (f : Nat → Modulus → R Nat) : R RnsPoly :=
+  (List.range ms.size).foldlM (fun acc i => do
+    let c ← mapM' (a.getD i #[]) (fun x => f x (ms.getD i default))
+    pure (acc.push c)) #[]
+
+/-- `bfv_multiply` (BEHZ steps 1–8) for ciphertexts of any sizes.
+    `bskTables` are the NTT tables of the auxiliary base Bsk (`base_Bsk_ntt_tables`). -/
+def bfvMultiply (l : Level) (bskTables : Array NTTTables) (a b : Ct) : R Ct := do
+  if a.ntt ∨ b.ntt then .error .refused else
+  let tool := l.tool
+  let qMs := l.qs
+  let bskMs := tool.baseBsk.base
+  let n := l.n
+  let zeroQ : RnsPoly := Array.replicate qMs.size (Array.replicate n 0)
+  let zeroB : RnsPoly := Array.replicate bskMs.size (Array.replicate n 0)
+  -- steps (1)–(3): lift to q ∪ Bsk, Montgomery-reduce, NTT (lazy) in both bases
+  let lift (c : Ct) : R (List RnsPoly × List RnsPoly) := do
+    let qs := c.polys.toList.map fun p => Array.ofFn (n := qMs.size) fun i => nttLazy (l.tbl i.val) (p.getD i.val #[])
+    let bs ← c.polys.toList.mapM fun p => do
+      let ext ← tool.fastbconvMTilde p
+      let red ← tool.smMrq ext
+      pure (Array.ofFn (n := bskMs.size) fun i => nttLazy (bskTables.getD i.val default) (red.getD i.val #[]))
+    pure (qs, bs)
+  let (aq, ab) ← lift a
+  let (bq, bb) ← lift b
+  let n1 := a.polys.size; let n2 := b.polys.size
+  if n1 < 1 ∨ n2 < 1 then .error .refused else
+  -- step (4): dyadic tensor product in both bases
+  let tensor (ms : Array Modulus) (xs ys : List RnsPoly) (zero : RnsPoly) : R (List RnsPoly) :=
+    (List.range (n1 + n2 - 1)).mapM fun i =>
+      (mulPairs n1 n2 i).foldlM (fun acc p => do
+        let pr ← compsZip ms (xs.getD p.1 #[]) (ys.getD p.2 #[]) mulMod
+        compsZip ms acc pr addMod) zero
+  let dq ← tensor qMs aq bq zeroQ
+  let db ← tensor bskMs ab bb zeroB
+  -- step (5): back from NTT form
+  let dq := dq.map fun p => Array.ofFn (n := qMs.size) fun i => intt (l.tbl i.val) (p.getD i.val #[])
+  let db := db.map fun p => Array.ofFn (n := bskMs.size) fun i => intt (bskTables.getD i.val default) (p.getD i.val #[])
+  -- steps (6)–(8): multiply by t, floor-divide by q into Bsk, Shenoy–Kumaresan back to q
+  let outs ← (List.range (n1 + n2 - 1)).mapM fun i => do
+    let tq ← compsMap qMs (dq.getD i #[]) (fun x m => mulMod x l.t.value m)
+    let tb ← compsMap bskMs (db.getD i #[]) (fun x m => mulMod x l.t.value m)
+    let fl ← tool.fastFloor (tq ++ tb)
+    tool.fastbconvSk fl
+  pure { a with polys := outs.toArray }
+
+/-- `bgv_multiply`: the dyadic tensor product of NTT-form ciphertexts; the correction factors multiply -/
+def bgvMultiply (l : Level) (a b : Ct) : R Ct := do
+  let c ← ctMultiplyDyadic l a b
+  let cf ← mulMod a.cf b.cf l.t
+  pure { c with cf := cf }
+
+end HC
+
+namespace HC
+
+/-- `translate_inplace` including the BGV branch that balances different correction factors first -/
+def ctTranslateBalanced (l : Level) (a b : Ct) (sub : Bool) : R Ct := do
+  if a.cf = b.cf then ctTranslate l a b sub else do
+    let (f, e1, e2) ← balanceCorrectionFactors a.cf b.cf l.t
+    let scale (c : Ct) (e : Nat) : R Ct := do
+      let ps ← c.polys.toList.mapM (fun p => compsMap l.qs p (fun x m => mulMod x e m))
+      pure { c with polys := ps.toArray, cf := f }
+    let a' ← scale a e1
+    let b' ← scale b e2
+    ctTranslate l a' b' sub
+
+end HC
